@@ -26,14 +26,14 @@ pub fn def() -> PropDef {
     PropDef {
         id: "C14",
         level: "model_checking",
-        rule: "explicit-state search over requests {open, open+sync, open+subscribe, close, set_sync on/off, insert, delete, get_exact, get_many, subscribe, unsubscribe, drop, import, insert_remote, sync_initial_message, sync_process_message, get_state} x two documents against the real SyncHandle and its actor thread; every history is executed twice: awaiting every reply before the next request, and pipelined (all requests enqueued back-to-back in order, replies collected afterwards); every reply must equal the reference model's reply after exactly the earlier requests; after the history shutdown must hand back a store equal to the model; canonical state = (get_state of both documents, entries, listed namespaces); since the actor is a single consumer of one FIFO queue, client concurrency is observable only as an enqueue order, so all merges of two clients' request sequences are among the enumerated histories; non-trivial = histories with at least two opens or a close/drop after an open",
+        rule: "explicit-state search over requests {open, open+sync, open+subscribe, close, set_sync on/off, insert, delete, get_exact, get_many, subscribe, unsubscribe, drop, import, insert_remote, sync_initial_message, sync_process_message, get_state} x two documents against the real SyncHandle and its actor thread; every history is executed twice: awaiting every reply before the next request, and pipelined (all requests enqueued back-to-back in order, replies collected afterwards); every reply must equal the reference model's reply after exactly the earlier requests; after the history shutdown must hand back a store equal to the model; canonical state = (get_state of both documents, entries, listed namespaces); since the actor is a single consumer of one FIFO queue, client concurrency is observable only as an enqueue order, so all merges of two clients' request sequences are among the enumerated histories; family S: every history of <= 2 (thorough 3) requests over a 10-request alphabet with a second client's stop request queued at every position among them, all enqueued back-to-back: every request is answered, the ones before the stop as the model says, the ones behind it with an error (get_many: its stream ends), the store handed back = the state before the stop; family A: the actor is stalled on a full one-slot subscriber channel, 1-2 (thorough 3) requests are queued and their futures dropped at once, then five observing requests are queued and the subscriber drained: replies and the store handed back reflect the abandoned requests; non-trivial = histories with at least two opens or a close/drop after an open",
         assumptions: &[
             "async_channel is a linearizable FIFO and the actor a single consumer: concurrent clients reduce to enqueue orders",
             "drop_replica releases the caller's handle and then removes the document iff no handle remains (as the API layer defines it); the model mirrors that",
         ],
         bound: |t| match t {
-            Tier::Quick => json!({"depth": 4, "events": 36}),
-            Tier::Thorough => json!({"depth": 6, "events": 36}),
+            Tier::Quick => json!({"family_S": "depth <= 2", "family_A": "1..2 abandoned requests over 36", "depth": 4, "events": 40}),
+            Tier::Thorough => json!({"family_S": "depth <= 3", "family_A": "1..3 abandoned requests", "depth": 6, "events": 40}),
         },
         run,
         replay,
